@@ -238,8 +238,22 @@ impl GroupCommitQueue {
         &self,
         payload: CommitPayload,
     ) -> Result<u64, String> {
+        self.submit_and_wait_role(payload)
+            .map(|(batch_id, _is_leader)| batch_id)
+    }
+
+    /// Like `submit_and_wait`, but also reports the caller's role.
+    ///
+    /// `true` means the caller was elected flush leader: its commit is NOT completed yet and
+    /// it must now call `take_pending`, write the batch and call `complete_batch` or
+    /// `fail_batch`. `false` means the commit was flushed and completed by another thread
+    /// (or there was nothing to flush); such a caller must not drain the queue.
+    pub fn submit_and_wait_role(
+        &self,
+        payload: CommitPayload,
+    ) -> Result<(u64, bool), String> {
         if !self.is_enabled() || payload.is_empty() {
-            return Ok(0);
+            return Ok((0, false));
         }
 
         let pending = {
@@ -264,9 +278,9 @@ impl GroupCommitQueue {
         #[cfg(kahflane_turdb_verif)]
         crate::verif_hooks::sched_point(301);
 
-        self.wait_for_completion(&pending)?;
+        let is_leader = self.wait_for_completion(&pending)?;
 
-        Ok(pending.batch_id)
+        Ok((pending.batch_id, is_leader))
     }
 
     /// Submit a commit request without waiting (for async usage)
@@ -292,7 +306,9 @@ impl GroupCommitQueue {
         pending
     }
 
-    fn wait_for_completion(&self, pending: &PendingCommit) -> Result<(), String> {
+    /// Returns `Ok(true)` if the caller became the flush leader (its commit is still pending),
+    /// `Ok(false)` if the commit was completed by another leader.
+    fn wait_for_completion(&self, pending: &PendingCommit) -> Result<bool, String> {
         // Use a generous timeout for the actual flush operation, as disk I/O can be slow
         // especially under load or with large batches. 10ms (old) was deemed too short.
         let timeout = Duration::from_secs(30);
@@ -312,7 +328,7 @@ impl GroupCommitQueue {
             if should_flush {
                 state.flush_in_progress = true;
                 drop(state);
-                return Ok(());
+                return Ok(true);
             } else {
                 let remaining = timeout.saturating_sub(start.elapsed());
                 if remaining.is_zero() {
@@ -325,7 +341,7 @@ impl GroupCommitQueue {
         if let Some(error) = pending.take_error() {
             Err(error)
         } else {
-            Ok(())
+            Ok(false)
         }
     }
 
